@@ -58,7 +58,9 @@ impl Op {
 }
 
 /// ref_docs: uri -> (version, text) with "ignore older versions"
-type RefState = BTreeMap<usize, (i64, usize)>;
+/// (version, text, open?) — a closed document keeps what it held when it was closed: a STALE change
+/// that arrives after the close must still be ignored (its diagnostics must not be published last)
+type RefState = BTreeMap<usize, (i64, usize, bool)>;
 
 #[derive(PartialEq, Eq, Debug)]
 enum Validity {
@@ -71,25 +73,30 @@ fn apply_ref(s: &RefState, op: &Op) -> (RefState, Validity) {
   let mut n = s.clone();
   match op {
     Op::Open(u, v, t) => {
-      if s.contains_key(u) {
+      if matches!(s.get(u), Some((_, _, true))) {
         return (n, Validity::ProbeOnly);
       }
-      n.insert(*u, (*v, *t));
+      n.insert(*u, (*v, *t, true));
     }
     Op::Change(u, v, t) => match s.get(u) {
       None => return (n, Validity::ProbeOnly),
-      Some((cv, _)) if cv == v => return (n, Validity::ProbeOnly),
-      Some((cv, _)) => {
+      Some((cv, _, _)) if cv == v => return (n, Validity::ProbeOnly),
+      // closed document: only a stale change is judged (it must change nothing); a newer one is a
+      // client protocol violation the statement is silent about
+      Some((cv, _, false)) if v > cv => return (n, Validity::ProbeOnly),
+      Some((_, _, false)) => {}
+      Some((cv, _, true)) => {
         if v > cv {
-          n.insert(*u, (*v, *t));
+          n.insert(*u, (*v, *t, true));
         }
       }
     },
-    Op::Close(u) => {
-      if n.remove(u).is_none() {
-        return (n, Validity::ProbeOnly);
+    Op::Close(u) => match s.get(u) {
+      Some((v, t, true)) => {
+        n.insert(*u, (*v, *t, false));
       }
-    }
+      _ => return (n, Validity::ProbeOnly),
+    },
   }
   (n, Validity::Valid)
 }
@@ -121,7 +128,17 @@ fn expected_diagnostics() -> Vec<Vec<Value>> {
 
 /// the property's oracle on a quiescent simulation
 fn check_final(sim: &Sim, state: &RefState, expected: &[Vec<Value>]) -> Option<Value> {
-  for (u, (v, t)) in state {
+  check_final_with(sim, state, expected, true)
+}
+
+/// `judge_closed`: also require that a closed document's last publication is still the one of the
+/// text it held when it was closed (sequential delivery only: with overlapping handlers the
+/// statement does not say which of close / change wins)
+fn check_final_with(sim: &Sim, state: &RefState, expected: &[Vec<Value>], judge_closed: bool) -> Option<Value> {
+  for (u, (v, t, open)) in state {
+    if !open && !judge_closed {
+      continue;
+    }
     let uri = sim.uri(DOCS[*u]);
     match sim.last_published(&uri) {
       None => return Some(json!({"doc": DOCS[*u], "problem": "nothing published", "want_version": v})),
@@ -209,7 +226,10 @@ fn sequential(rep: &Reporter, expected: &[Vec<Value>], max_depth: usize, samples
             let kind = match op {
               Op::Open(..) => "open",
               Op::Change(_, v, _) => {
-                if state.get(&match op { Op::Change(u, ..) => *u, _ => 0 }).map(|c| v < &c.0).unwrap_or(false) {
+                let cur = state.get(&match op { Op::Change(u, ..) => *u, _ => 0 });
+                if cur.map(|c| v < &c.0 && !c.2).unwrap_or(false) {
+                  "stale-change-after-close"
+                } else if cur.map(|c| v < &c.0).unwrap_or(false) {
                   "stale-change"
                 } else {
                   "newer-change"
@@ -414,7 +434,7 @@ fn child(hist_json: &str, bound: usize, skip: &BTreeSet<String>) {
       verdict = json!({"sig": "MACHINERY:diverged"});
     } else if tr.hang {
       verdict = json!({"sig": "interleaved:hang:handlers-never-complete", "in_flight": tr.sim.in_flight()});
-    } else if let Some(problem) = check_final(&tr.sim, &want, &expected) {
+    } else if let Some(problem) = check_final_with(&tr.sim, &want, &expected, false) {
       // classify by the kinds of deviations on this path
       let dev_kinds: BTreeSet<String> = prefix_devs(&hist, &prefix);
       verdict = json!({"sig": format!("interleaved:wrong-final-diagnostics:{}", dev_kinds.into_iter().collect::<Vec<_>>().join("+")), "problem": problem});
@@ -599,7 +619,7 @@ fn main() {
     } else {
       run_sequential(&hist).unwrap()
     };
-    let problem = check_final(&sim, &want, &expected);
+    let problem = check_final_with(&sim, &want, &expected, case["mode"] != "interleaved");
     println!("history: {:?}\nreference state: {:?}\nproblem: {}", hist, want, problem.clone().unwrap_or(Value::Null));
     std::process::exit(if problem.is_some() { 1 } else { 0 });
   }
